@@ -70,6 +70,26 @@ Theorem C06_div_rm8 : forall c i s,
   end.
 Proof. exact div_rm8_refines. Qed.
 
+Theorem C06_idiv_rm16 : forall c i s,
+  wf_regs s -> Inv (mem s) -> i_op_count i = 1 -> rm16_shape i 0 -> i_code i = C_Idiv_rm16 ->
+  match isa_exec (SIdiv 16) i s with
+  | IDone s' _ => instr_idiv_rm16 c i s = (Ok tt, s')
+  | IFault FDivide => instr_idiv_rm16 c i s = (Err EDivZero, s)
+  | IFault FMem => exists e, instr_idiv_rm16 c i s = (Err e, s)
+  | IFault _ => False
+  end.
+Proof. exact idiv_rm16_refines. Qed.
+
+Theorem C06_idiv_rm8 : forall c i s,
+  wf_regs s -> Inv (mem s) -> i_op_count i = 1 -> rm8_shape i 0 -> i_code i = C_Idiv_rm8 ->
+  match isa_exec (SIdiv 8) i s with
+  | IDone s' _ => instr_idiv_rm8 c i s = (Ok tt, s')
+  | IFault FDivide => instr_idiv_rm8 c i s = (Err EDivZero, s)
+  | IFault FMem => exists e, instr_idiv_rm8 c i s = (Err e, s)
+  | IFault _ => False
+  end.
+Proof. exact idiv_rm8_refines. Qed.
+
 Theorem C06_idiv_rm32 : forall c i s,
   wf_regs s -> Inv (mem s) -> i_op_count i = 1 -> rm32_shape i 0 -> i_code i = C_Idiv_rm32 ->
   match isa_exec (SIdiv 32) i s with
@@ -157,3 +177,5 @@ Print Assumptions C06_div_rm32.
 Print Assumptions C06_idiv_rm32.
 Print Assumptions C06_div_rm16.
 Print Assumptions C06_div_rm8.
+Print Assumptions C06_idiv_rm16.
+Print Assumptions C06_idiv_rm8.
